@@ -213,6 +213,7 @@ func c16RunOnce(hashLimit int, ops []c16Op, c16Unit time.Duration) (obs []string
 		}
 		if time.Since(target) > c16Unit/4 {
 			late = true
+			vu.Stat("late_op_" + string(o.kind))
 		}
 		switch o.kind {
 		case 'N':
@@ -286,8 +287,9 @@ func c16RunOnce(hashLimit int, ops []c16Op, c16Unit time.Duration) (obs []string
 			c.mu.Unlock()
 		}
 	}
-	if noise.Stop() > c16Unit/5 {
+	if noise.Stop() > c16Unit*2/5 {
 		late = true
+		vu.Stat("noisy")
 	}
 	c.mu.Lock()
 	obs = append([]string{}, c.log...)
